@@ -73,14 +73,19 @@ def grd5(P, R, L):
               and any("tables_in_use" in o.path for o in origins(b, c.args[0]))]
     glf = K.normal_sites(b, "versioning::version_set::VersionSet::get_live_files")
     ins = [c for c in K.normal_sites(b, "std::collections::HashSet::insert")]
-    ok = bool(clones) and bool(glf) and bool(ins)
+    # `live.extend(version_set.get_live_files())` is the loop of inserts in one call
+    ext = [c for c in b.calls() if not b.is_cleanup(c.bb) and (c.name or "").endswith("::extend") and len(c.args) > 1 and
+           any(o.kind == "call" and o.name == "versioning::version_set::VersionSet::get_live_files" for o in origins(b, c.args[1]))]
+    ok = bool(clones) and bool(glf) and (bool(ins) or bool(ext))
     if ok:
         live = {c.dest["l"] for c in clones}
         from ..rules import forward_aliases
         la = set()
         for l in live:
             la |= forward_aliases(b, l)
-        ok = any(pair.roots(b, i.args[0]) & la for i in ins) and bool(live_locals & la) and all(in_cycle(b, i.bb) for i in ins if pair.roots(b, i.args[0]) & la)
+        by_loop = any(pair.roots(b, i.args[0]) & la for i in ins) and all(in_cycle(b, i.bb) for i in ins if pair.roots(b, i.args[0]) & la)
+        by_extend = any(pair.roots(b, e.args[0]) & la for e in ext)
+        ok = (by_loop or by_extend) and bool(live_locals & la)
     R.check("GRD-5", K.REMOVE_OBSOLETE + "|live-set", ok, K.where(b),
             "the set tested by contains() is the clone of tables_in_use extended in a loop with get_live_files()", "clones=%d get_live_files=%d inserts=%d" % (len(clones), len(glf), len(ins)))
     g = P.body("versioning::version_set::VersionSet::get_live_files")
